@@ -19,8 +19,10 @@ def run_plan(chk, pid, plan, nontrivial_fn, also=()):
         if n <= 0:
             continue
         results, d, allruns, exe = tracecheck.record_and_validate(
-            chk, st["flavour"], st.get("exe", "record"), st["scen"], n, st["opts"], seed_offset=k * 101)
-        tracecheck.attribute(chk, results, pid, exe, st["scen"], st["flavour"], d, also=also)
+            chk, st["flavour"], st.get("exe", "record"), st["scen"], n, st["opts"], seed_offset=k * 101,
+            module=st.get("module", "TraceCircuit"))
+        tracecheck.attribute(chk, results, pid, exe, st["scen"], st["flavour"], d, also=also,
+                             module=st.get("module", "TraceCircuit"), exe_name=st.get("exe", "record"))
         for rid, evs in allruns.items():
             chk.count()
             nontrivial_fn(chk, st, rid, evs)
